@@ -153,6 +153,43 @@ func runC12(o *Options) *Result {
 			}
 		}
 	}
+	// spellings of block tags that must be accepted (properly nested and closed), and their versions
+	// with the closer removed that must not: signs, spaces, quotes and operators inside the tags
+	spell := []struct{ open, closeT string }{
+		{"{% for i := 3; i > -1; i-- %}", "{% endfor %}"}, {"{% for i := -2; i < 1; i++ %}", "{% endfor %}"}, {"{% for i:=0;i<3;i++ %}", "{% endfor %}"},
+		{"{% for i := 0; i <= n; i++ separator , %}", "{% endfor %}"}, {"{% for i := a; i != c.d; i-- sep | %}", "{% endfor %}"}, {"{% for k, v := range a.b.c %}", "{% endfor %}"},
+		{"{% for _, v := range x separator ; %}", "{% endfor %}"}, {"{% for k := range m %}", "{% endfor %}"}, {"{% if a.b >= -1.5 %}", "{% endif %}"}, {"{% if \"x y\" != s %}", "{% endif %}"},
+		{"{% if len(a.b) > 0 %}", "{% endif %}"}, {"{% if lenEq0(x) %}", "{% endif %}"}, {"{% if v, ok := f(x).(T); !ok %}", "{% endif %}"}, {"{% if v, ok := f(x) as T; ok %}", "{% endif %}"},
+		{"{% switch a.b %}{% case -1 %}", "{% endswitch %}"}, {"{% switch %}{% case a < -2 %}", "{% endswitch %}"}, {"{% switch x %}{% case 'q' %}", "{% endswitch %}"},
+	}
+	for _, sp := range spell {
+		for _, wrap := range []string{"%s", "{%% if z == 1 %%}%s{%% endif %%}", "{%% for j := 0; j < 2; j++ %%}%s{%% endfor %%}"} {
+			for _, closed := range []bool{true, false} {
+				body := sp.open + "x"
+				if closed {
+					body += sp.closeT
+				}
+				src := fmt.Sprintf(wrap, body)
+				_, po := ParseReg([]byte(src), false)
+				res.Evaluations++
+				res.Hist(fmt.Sprintf("spelling:closed=%v", closed))
+				res.Distinct(src)
+				if po.ErrClass() == "PANIC" || po.ErrClass() == "HANG" {
+					res.OracleFails++
+					res.AddViolation(&Violation{Kind: "failing-input", Class: "parse:" + po.ErrClass(), What: fmt.Sprintf("Parse of %q: %s %s", src, po.ErrClass(), po.Panic), Replay: map[string]any{"template": src}})
+					continue
+				}
+				if accepted := po.ErrClass() == "OK"; accepted != closed {
+					class := "nesting:accepted-unbalanced"
+					if closed {
+						class = "nesting:rejected-balanced"
+					}
+					res.OracleFails++
+					res.AddViolation(&Violation{Kind: "failing-input", Class: class, What: fmt.Sprintf("template %q: Parse accepted=%v (err=%q) but properly nested=%v", src, accepted, po.Err, closed), Replay: map[string]any{"template": src}})
+				}
+			}
+		}
+	}
 	for i := 0; i < n; i++ {
 		sk := genSkeleton(rng, 1+rng.Intn(4))
 		check(sk, "well-nested")
